@@ -636,7 +636,7 @@ func runNFSProbeCase(r *ev.Run, rc *reach, i int) {
 }
 
 func runNFSProbes(r *ev.Run, rc *reach) {
-	n := r.Pick(120, 2400)
+	n := r.Pick(80, 2400)
 	parallel(8, n, func(i int) { runNFSProbeCase(r, rc, i) })
 	r.Floor("probed-after-error-return:nfsv4", 200)
 	r.Floor("nfs-lease-expired", 20)
@@ -647,7 +647,7 @@ func runNFSProbes(r *ev.Run, rc *reach) {
 // nfsStressRound: several clients (4.0) or several slots of a few clients
 // (4.1) issue COMPOUNDs concurrently on two shared directories and three
 // files while another goroutine moves the clock past the lease.
-func nfsStressRound(r *ev.Run, rc *reach, i int) {
+func nfsStressRound(r *ev.Run, rc *reach, i int) roundVerdict {
 	rng := r.Rand(14, 6, uint64(i))
 	minor := uint32(i % 2)
 	nClients := 2 + rng.IntN(3)
@@ -718,7 +718,7 @@ func nfsStressRound(r *ev.Run, rc *reach, i int) {
 	r.SituationN("nfs-compounds-overlapped", int(overlapped.Load()))
 	r.SituationN("nfs-lease-expiry-racing-io", int(expiries.Load()))
 	if v != roundFinished {
-		return
+		return v
 	}
 	// Quiescent: nothing may be held any more.
 	var dirs []virtual.Directory
@@ -741,4 +741,5 @@ func nfsStressRound(r *ev.Run, rc *reach, i int) {
 			witness{Seed: r.Seed(), Phase: "nfs-stress", Case: i, Held: held})
 	}
 	r.Hash(ev.HashOf("nfs-stress", i, minor, nClients, len(statuses)), overlapped.Load() > 0)
+	return v
 }
